@@ -1,4 +1,5 @@
 import DadiVerif.Generated.Godambe
+import DadiVerif.Generated.Fold
 /-!
 Executable model of `dadi/Godambe.py` (C19).  Core Lean only.
 
@@ -76,13 +77,19 @@ def vecOf (l : List Rat) : Nat → Rat := fun k => l.getD k 0
 
 /-! ### bootstrap accumulation -/
 
-/-- `J = Σ_b outer(g_b, g_b) / len(all_boot)`, entry (i, j) -/
-def jEntry (grads : List (List Rat)) (i j : Nat) : Rat :=
-  (grads.map fun g => g.getD i 0 * g.getD j 0).sum / (grads.length : Rat)
+/-- `J = Σ_b outer(g_b, g_b) / len(all_boot)`, entry (i, j)  (polymorphic: the driver runs it at `Rat`, the order-of-accuracy
+    theorems instantiate it at ℝ) -/
+def jEntry {α : Type} [Zero α] [Add α] [Mul α] [Div α] [NatCast α] (grads : List (List α)) (i j : Nat) : α :=
+  (grads.map fun g => g.getD i 0 * g.getD j 0).sum / (grads.length : α)
 
 /-- `cU = Σ_b g_b / len(all_boot)`, entry i -/
-def cuEntry (grads : List (List Rat)) (i : Nat) : Rat :=
-  (grads.map fun g => g.getD i 0).sum / (grads.length : Rat)
+def cuEntry {α : Type} [Zero α] [Add α] [Mul α] [Div α] [NatCast α] (grads : List (List α)) (i : Nat) : α :=
+  (grads.map fun g => g.getD i 0).sum / (grads.length : α)
+
+/-- `for ii, (boot, theta_adjust) in enumerate(zip(all_boot, boot_theta_adjusts)): grad_temp = get_grad(func, p0, eps, args=[boot, theta_adjust])`:
+    the gradient list that J and cU are accumulated from (`score boot theta_adjust` = that `get_grad` call; `zip` truncates to the shorter list) -/
+def bootGrads {β θ γ : Type} (score : β → θ → γ) (boots : List β) (adjs : List θ) : List γ :=
+  (boots.zip adjs).map fun p => score p.1 p.2
 
 abbrev Mat := List (List Rat)
 
@@ -200,6 +207,28 @@ def runCache [DecidableEq π] (keyOf : ω → κ) (sem : ω → π → ν) : Mem
     let rest := runCache keyOf sem r.1 ops
     (rest.1, r.2 :: rest.2)
 
+/-- overwrite the entry stored under `k` (`cache[key] *= …` on the stored object) -/
+def Memo.set (c : Memo κ ν) (k : κ) (v : ν) : Memo κ ν := c.map fun p => if p.1 = k then (k, v) else p
+
+/-- A history of `func(params, data, theta_adjust)` evaluations: memo lookup/insert as in `runCache`, then `fs` is formed from the cached
+    spectrum and `theta_adjust` (`smul a v` = `a*v`).  `fresh` = `fs` is a new array (the stored object is left alone); otherwise the stored
+    object itself is rescaled in place (skipped for `theta_adjust == 1` when `skipUnit`).  Returns the final table and every `fs` whose
+    likelihood was taken. -/
+def runCacheAdjWith [DecidableEq π] (fresh skipUnit : Bool) (smul : Rat → ν → ν) (keyOf : ω → κ) (sem : ω → π → ν) :
+    Memo (κ × π) ν → List (ω × π × Rat) → Memo (κ × π) ν × List ν
+  | c, [] => (c, [])
+  | c, (o, k, a) :: ops =>
+    let r := Memo.call c (keyOf o, k) (sem o k)
+    let fs := if !fresh && skipUnit && a == 1 then r.2 else smul a r.2
+    let c' := if fresh || (skipUnit && a == 1) then r.1 else Memo.set r.1 (keyOf o, k) fs
+    let rest := runCacheAdjWith fresh skipUnit smul keyOf sem c' ops
+    (rest.1, fs :: rest.2)
+
+/-- … with the effect flags generated from the current source -/
+def runCacheAdj [DecidableEq π] (smul : Rat → ν → ν) (keyOf : ω → κ) (sem : ω → π → ν) :
+    Memo (κ × π) ν → List (ω × π × Rat) → Memo (κ × π) ν × List ν :=
+  runCacheAdjWith fsFreshProduct fsSkipsUnitAdjust smul keyOf sem
+
 /-- the key component the *source* uses for the function object: the object itself (`Sum.inl`, compared by identity, kept alive by
     the table) when `cacheKeyHoldsRef`, otherwise only the number `ident o` that the interpreter assigned to it -/
 def implKey (ident : ω → Nat) (o : ω) : Sum ω Nat := if cacheKeyHoldsRef then Sum.inl o else Sum.inr (ident o)
@@ -207,9 +236,10 @@ def implKey (ident : ω → Nat) (o : ω) : Sum ω Nat := if cacheKeyHoldsRef th
 end Cache
 
 /-! ### `sum_chi2_ppf` -/
-/-- `1 - (Σ_{d≥1} w_d·cdf_d(x) + [x > 0]·w_0)` with `cs = [cdf_1(x), cdf_2(x), …]` -/
+/-- `1 - (Σ w·cdf_dof(x) over the generated (dof, w) pairs + [x > 0]·w_0)` with `cs = [cdf_1(x), cdf_2(x), …]` (`cs[dof-1]` = the chi-square
+    cdf with `dof` degrees of freedom at x) -/
 def mixVal (w : List Rat) (x : Rat) (cs : List Rat) : Rat :=
-  1 - ((List.zipWith (· * ·) w.tail cs).sum + (if x > 0 then w.headD 0 else 0))
+  1 - (((chi2Pairs w).map fun p => p.2 * cs.getD (p.1 - 1) 0).sum + (if x > 0 then w.headD 0 else 0))
 
 inductive Chi2Out where
   | scalar (v : Rat)
@@ -255,6 +285,44 @@ def llSum (cells : List LLCell) : Rat :=
 def bootSeenMask (given : List Bool) : List Bool :=
   if bootMaskKept then given
   else (List.range given.length).map fun i => given.getD i false || i == 0 || i + 1 == given.length
+
+/-! ### P-population spectra: flat (row-major) entries, corners, folding -/
+/-- flat index of the multi-index `idx` in a C-ordered array of shape `shape` -/
+def flatIdx (shape idx : List Nat) : Nat :=
+  let rec go (acc : Nat) : List Nat → List Nat → Nat
+    | n :: ns, i :: is => go (acc * n + i) ns is
+    | _, _ => acc
+  go 0 shape idx
+
+/-- sum of the multi-index of flat entry `k` (`_total_per_entry`) -/
+def totalOf (shape : List Nat) (k : Nat) : Nat :=
+  let rec go : List Nat → Nat → Nat
+    | [], _ => 0
+    | n :: ns, k => k % n + go ns (k / n)
+  go shape.reverse k
+
+/-- `numpy.sum(self.sample_sizes)` -/
+def totalSamples (shape : List Nat) : Nat := (shape.map (· - 1)).sum
+
+/-- `model.fold()` on the flat array, entry `k`: the pointwise programs generated from `Spectrum.fold` (tools/gen_Fold.py; reversing every
+    axis of a C-ordered array = reversing the flat array); the constructor masks the two corners -/
+def foldVal (shape : List Nat) (x : List Rat) (mm : List Bool) (k : Nat) : Rat :=
+  Gen.Fold.fold_outData (fun i => x.length - 1 - i) (totalOf shape) (totalSamples shape) (fun i => x.getD i 0) (fun i => mm.getD i false) k
+def foldMask (shape : List Nat) (x : List Rat) (mm : List Bool) (k : Nat) : Bool :=
+  Gen.Fold.fold_outMask (fun i => x.length - 1 - i) (totalOf shape) (totalSamples shape) (fun i => x.getD i 0) (fun i => mm.getD i false) k
+    || (Gen.Fold.fold_maskCorners && Gen.Fold.cornerFlat x.length k)
+
+/-- the model spectrum (value, mask per flat entry) as `ll_per_bin` uses it: folded when the data is folded and the model is not
+    (generated `llFoldsModel`: the prologue is present) -/
+def llModelSeen (shape : List Nat) (dataFolded modelFolded : Bool) (m : List Rat) (mm : List Bool) : List (Rat × Bool) :=
+  if llFoldsModel && dataFolded && !modelFolded then (List.range m.length).map fun k => (foldVal shape m mm k, foldMask shape m mm k)
+  else (List.range m.length).map fun k => (m.getD k 0, mm.getD k false)
+
+/-- the entries `ll` sums for a P-population, possibly folded data spectrum; `logm` = log of the model values *as seen* -/
+def llCellsND (shape : List Nat) (dataFolded modelFolded : Bool) (m : List Rat) (mm dm : List Bool) (d logm lgam : List Rat) : List LLCell :=
+  (List.range m.length).map fun k =>
+    let sv := (llModelSeen shape dataFolded modelFolded m mm).getD k (0, true)
+    { mm := sv.2, dm := dm.getD k false, m := sv.1, d := d.getD k 0, logm := logm.getD k 0, lgam := lgam.getD k 0 }
 
 /-- `ll_per_bin(model, data).count()` -/
 def llCount (cells : List LLCell) : Nat := (cells.filter fun c => !llCellMasked c).length
